@@ -63,7 +63,13 @@ def place(prog, gen, spec, pos, tag):
             prog.emit(f"@dataclasses.dataclass\nclass {sib}:\n    {f0}: typing.Any = None\n")
         return f"typing.Union[{sib}, {s}]", None
     name = prog.fresh("F" + tag)
-    prog.emit(f"@dataclasses.dataclass\nclass {name}:\n    f: {s}\n    g: int = 0\n")
+    if not hasattr(prog, "_c11_field_default"):
+        prog._c11_field_default = prog.rng.random() < 0.5  # the same layout for the plain and the wrapped placement
+    if prog._c11_field_default:
+        # the member has a DEFAULT (a qualified member with a value on the class is still an instance field)
+        prog.emit(f"@dataclasses.dataclass\nclass {name}:\n    g: int = 0\n    f: {s} = None\n")
+    else:
+        prog.emit(f"@dataclasses.dataclass\nclass {name}:\n    f: {s}\n    g: int = 0\n")
     return name, "f"
 
 
